@@ -566,6 +566,8 @@ PROPS["C15"] = dict(
     assumptions=["resume is inclusive by design (the offset file stores the last completed offset): replaying that one message again is allowed",
                  "a killed incarnation may have appended fewer messages than asked; the harness counts the appends the child recorded"],
     runs=[
+        # crash images: every state-file content observed through the file system while a consumer runs at full speed is restarted on
+        dict(name="images", pkg="c15", run="TestCrashImages", timeout=dict(quick=300, thorough=1800)),
         dict(name="regress", pkg="c15", run="TestRegress", timeout=300),
         dict(name="enum", pkg="c15", run="TestEnumSmall", shards=dict(quick=8, thorough=16), timeout=dict(quick=400, thorough=2400)),
         dict(name="random", pkg="c15", run="TestRandom", checks=dict(quick=800, thorough=3000), shards=16, timeout=dict(quick=400, thorough=2400), shrinktime="60s"),
